@@ -1091,6 +1091,13 @@ func usedAsSliceBound(v ssa.Value, depth int) bool {
 			if x.Low == v || x.High == v {
 				return true
 			}
+		case *ssa.BinOp:
+			// compared with a position (the end-of-text test `i + width == len(text)`): the same
+			// byte arithmetic, decided wrongly for a byte that is not valid UTF-8
+			switch x.Op {
+			case token.EQL, token.NEQ, token.LSS, token.LEQ, token.GTR, token.GEQ:
+				return true
+			}
 		case *ssa.Phi:
 			if usedAsSliceBound(x, depth+1) {
 				return true
